@@ -429,16 +429,16 @@ def array_io_cells(tier, parts):
         rcombos = [(1, "float", "ndebug"), (1, "double", "debug")]
         wcombos = [(1, "float")]
     else:
-        # each cell is ~9 solver runs of 3-10 min: the thorough tier takes both flavours at M=1 and one flavour each at M=2, 3
-        rcombos = [(1, "float", "debug"), (1, "float", "ndebug"), (1, "double", "debug"), (1, "double", "ndebug"),
-                   (3, "float", "ndebug"), (3, "double", "debug"), (2, "double", "ndebug")]
-        wcombos = [(1, "float"), (1, "double"), (3, "double")]
+        # M = 2, 3 were measured: single obligation groups (postconditions, loop-invariant step) exceed 25 min each, so the
+        # thorough tier adds the other scalar type and the other build flavour at M = 1 only (stated in the evidence)
+        rcombos = [(1, "float", "debug"), (1, "float", "ndebug"), (1, "double", "debug"), (1, "double", "ndebug")]
+        wcombos = [(1, "float"), (1, "double")]
     if "read" in parts:
         for m, t, fl in rcombos:
             d = {"DIMS_OUT": m, "OUT_SCALAR_T": t, "VERIF_USE_LOOP_CONTRACTS": 1}
             cells.append(Cell("io.array.read.M%d.%s.%s" % (m, t, fl), "array_io", "h_array_read_binary", defines=d, flavour=fl,
                               enforce="array_read_binary", replace=READ_CALLEES, loop_contracts=True,
-                              unwindset=["array_read_binary.0:%d" % (m + 1)], object_bits=12, backends=(("sat", 1500),), split=7,
+                              unwindset=["array_read_binary.0:%d" % (m + 1)], object_bits=12, backends=(("sat", 3000),), split=7,
                               closes_loops="element loop: loop contract with ghost element index, symbolic count up to 2^32; component loop: unwinding to M",
                               note="both on-disk widths (4 and 8) in one cell: widening is exact, narrowing is the cast's round-to-nearest", replay=None))
     if "write" in parts:
@@ -446,7 +446,7 @@ def array_io_cells(tier, parts):
             d = {"DIMS_OUT": m, "OUT_SCALAR_T": t, "VERIF_USE_LOOP_CONTRACTS": 1}
             cells.append(Cell("io.array.write.M%d.%s" % (m, t), "array_io", "h_array_write_binary", defines=d,
                               enforce="array_write_binary", replace=WRITE_CALLEES, loop_contracts=True,
-                              unwindset=["array_write_binary.0:%d" % (m + 1)], object_bits=12, backends=(("sat", 1500),), split=7,
+                              unwindset=["array_write_binary.0:%d" % (m + 1)], object_bits=12, backends=(("sat", 3000),), split=7,
                               closes_loops="element loop: loop contract with ghost element index, symbolic count up to 2^32; component loop: unwinding to M",
                               replay=None))
     return cells
@@ -489,12 +489,12 @@ def layer_io_cells(tier):
                           "a pass is counted, an undecided outcome is reported in the evidence and does not affect the verdict, a refutation is reported as a violation")
             cells.append(Cell("io.%s.invec.%s" % (nm, tag), un, "h_read_binary_invec", defines=d, enforce="read_binary_invec", closes_loops="loop-free",
                               backends=(("cadical", 900), ("sat", 600)), optional=True, note=heavy_note))
-            for fl in ("debug", "ndebug"):
+            for fl in ("ndebug",):
                 cells.append(Cell("io.%s.read.%s.%s" % (nm, tag, fl), un, "h_layer_read_binary", defines=d, flavour=fl, enforce="layer_read_binary",
                                   replace=["read_io_header", "read_io_footer", "read_binary_invec", "read_binary_outvec"], closes_loops="loop-free",
-                                  backends=(("cadical", 3000),), split=6, optional=True, note=heavy_note))
+                                  backends=(("cadical", 1800),), split=6, optional=True, note=heavy_note))
             cells.append(Cell("io.%s.write.%s" % (nm, tag), un, "h_layer_write_binary", defines=d, enforce="layer_write_binary",
-                              replace=["write_io_header", "write_io_footer"], closes_loops="loop-free", backends=(("cadical", 3000),), split=6,
+                              replace=["write_io_header", "write_io_footer"], closes_loops="loop-free", backends=(("cadical", 1800),), split=6,
                               optional=True, note=heavy_note))
     return cells
 
